@@ -72,6 +72,16 @@ def main():
                 # 'older': the new content carries a modification time BEFORE the one the cache saw (a restored backup, cp -p, rsync -t)
                 os.utime(path, (st.st_atime, (old_mtime - 100) if older else (st.st_mtime + 10)))
                 res.append(['append_item', op[1], 'ok'])
+            elif op[0] == 'new_theory':
+                from logic import basic
+                path = basic.user_file(op[1])
+                with open(path, 'w', encoding='utf-8') as f:
+                    json.dump({"name": op[1], "description": "", "imports": op[2], "content": op[3]}, f)
+                res.append(['new_theory', op[1], 'ok'])
+            elif op[0] == 'load_metadata':
+                from logic import basic
+                basic.load_metadata()
+                res.append(['load_metadata', None, 'ok'])
             elif op[0] == 'fail_parse_once':
                 # next items.parse_item call number k raises: an interrupted load
                 from server import items
